@@ -160,6 +160,34 @@ def r1_flush_status_gates_publication(repo=None):
                             "reports success", line=c.line)
             else:
                 r.ok(site, "status of closing the new properties file is examined (%s)" % u)
+    # the create itself: H5Fcreate makes the directory entry before it writes the superblock; when that first write fails the
+    # create returns an error and the empty file stays.  Every error return from the failure side of the create passes a
+    # remove / unlink of the same path (an unreadable properties file blocks later writers, readers and regeneration)
+    for c in creates:
+        pvar = c.args[0].path()
+        if var is None:
+            raise AnalysisError("digital_rf_handle_metadata: status of H5Fcreate not assigned (%s)" % use)
+        fails = [n for n in g.nodes if n.kind == "cond" and n.ast is not None and n.ast.strip().kind == "BinaryOperator"
+                 and n.ast.strip().opcode == "<" and n.ast.strip().children[0].path() == var and n.ast.strip().children[1].intval() == 0
+                 and n.id in after]
+        if not fails:
+            raise AnalysisError("digital_rf_handle_metadata: test `%s < 0` of the properties-file create not found" % var)
+        rm = [n.id for n in g.nodes if n.ast is not None and any(x.args and x.args[0].path() == pvar for x in n.ast.calls(("remove", "unlink")))]
+        # the failure test directly after the create (the first one reached from it)
+        f_ = sorted(fails, key=lambda n: n.line)[0]
+        ts = [b for b, l in g.succ[f_.id] if l == "T"]
+        treach = g.reach(ts)
+        guards = [n.id for n in g.nodes if n.kind == "cond" and n.id in treach]
+        bare = [x for x in g.nodes if x.kind == "return" and x.id in g.reach(ts, avoid=rm + guards)]
+        site = "%s:%s digital_rf_handle_metadata failed H5Fcreate(%s)" % (LIB, f_.line, pvar)
+        if not [i for i in rm if i in treach] or bare:
+            r.violation(LIB, "digital_rf_handle_metadata", "failed H5Fcreate(%s, H5F_ACC_EXCL) returns without removing the file" % pvar,
+                        "H5Fcreate creates the file before it writes the superblock: when that first write fails (full disk) the "
+                        "create reports an error but a 0-byte drf_properties.h5 stays behind; it makes every later writer "
+                        "start fail, every reader of the top-level directory raise and recreate_properties_file refuse "
+                        "(`already exists`) until somebody deletes it by hand", line=f_.line)
+        else:
+            r.ok(site, "the error return passes remove(%s) (guarded only by `did the name exist before`)" % pvar)
     r.guard(9)
     return r
 
